@@ -305,8 +305,10 @@ def gen_items(rng, depth, kind, budget, allow):
             items.append({'k': 'global', 'x': rng.choice(NAMES)})
         elif r < 0.72 and kind != 'module' and depth >= 2:
             items.append({'k': 'nonlocal', 'x': rng.choice(NAMES)})
-        elif r < 0.90 and depth < 3:
-            if rng.random() < 0.7:
+        elif r < 0.90 and (depth < 3 or (depth == 3 and kind == 'class')):
+            # (one level deeper inside a class body: class > class > function is where
+            # `FunctionValue.from_context` has to skip SEVERAL enclosing classes)
+            if rng.random() < 0.7 or depth == 3:
                 name = rng.choice(FNAMES + NAMES[:1])
                 params = rng.sample(NAMES, rng.choice([0, 0, 1, 2]))
                 body = gen_items(rng, depth + 1, 'function', budget, allow)
